@@ -5,6 +5,7 @@ import (
 	"go/token"
 	"go/types"
 	"sort"
+	"strings"
 
 	"golang.org/x/tools/go/ssa"
 )
@@ -634,6 +635,33 @@ func ruleSequencedRegion(c *Ctx, r *Rule) {
 		}
 	}
 	r.Ob(nStores == 1, name+"|single-counter-writer", fn.Pos(), fmt.Sprintf("%d stores to Batcher.%s outside the constructor (expected 1)", nStores, seqField))
+	// (e0) a Batch is never overwritten as a whole outside its constructor: `*b = Batch{...}` in reset()
+	// also clears the sequence number of a batch that is on its way to the commit (the dead-queue path
+	// resets an in-flight batch), which then waits for a turn that never comes
+	for _, f2 := range c.ModFuncs {
+		if c.pkgOf(f2) != "pipeline" {
+			continue
+		}
+		for _, b2 := range f2.Blocks {
+			for _, in2 := range b2.Instrs {
+				st, ok := in2.(*ssa.Store)
+				if !ok || !typeIs(st.Val.Type(), pipelinePkg, "Batch") {
+					continue
+				}
+				if _, isPtr := st.Val.Type().Underlying().(*types.Pointer); isPtr {
+					continue // a *Batch stored somewhere, not a Batch value written over another
+				}
+				if _, isAl := st.Addr.(*ssa.Alloc); isAl {
+					continue // a local being built
+				}
+				fresh := false
+				if al, isAl := stripConv(st.Addr).(*ssa.Alloc); isAl && al.Heap {
+					fresh = true
+				}
+				r.Ob(fresh, c.fnName(f2)+"|whole-batch-store", st.Pos(), "a Batch object in use is not overwritten as a whole (its sequence number belongs to the sender and the commit turn)")
+			}
+		}
+	}
 	// (e) batch.seq stored only by the sender under the fill lock from a counter incremented there
 	for _, a := range c.fieldAccesses(pipelinePkg, "Batch", "seq") {
 		if !a.write {
@@ -701,6 +729,37 @@ func ruleRetryLoopExits(c *Ctx, r *Rule) {
 		return
 	}
 	send := sends[0]
+	// every batch starts its own back-off: the object whose NextBackOff is consulted is Reset in this
+	// function before the first attempt (Reset also starts the elapsed-time budget; a back-off prepared
+	// once and copied stops after MaxElapsedTime of process uptime: one attempt, no retries)
+	{
+		var next, reset []ssa.CallInstruction
+		for _, ci := range callsIn(fn) {
+			if f := calleeFunc(ci); f != nil && f.Signature.Recv() != nil {
+				switch f.Name() {
+				case "NextBackOff":
+					next = append(next, ci)
+				case "Reset":
+					if rn := namedOf(deref(f.Signature.Recv().Type())); rn != nil && strings.Contains(rn.Obj().Name(), "BackOff") {
+						reset = append(reset, ci)
+					}
+				}
+			}
+		}
+		okReset := len(next) >= 1
+		for _, nx := range next {
+			found := false
+			for _, rs := range reset {
+				if instrDominates(rs, nx) && sameRoot(rs.Common().Args[0], nx.Common().Args[0]) {
+					found = true
+				}
+			}
+			if !found {
+				okReset = false
+			}
+		}
+		r.Ob(okReset, name+"|backoff-reset-per-batch", fn.Pos(), "the back-off consulted between attempts is Reset in the retry function itself, before the first attempt of every batch")
+	}
 	isCb := func(in ssa.Instruction) bool {
 		for _, cb := range errCbs {
 			if in == ssa.Instruction(cb) {
